@@ -117,6 +117,7 @@ func literalVerbatim(x *Ctx) {
 				}
 			}
 		}
+		noSubstituteNode(x, name, fns)
 		x.C.Obl("C10.R4", "fresh-nodes:"+name, x.pos(f), "nodes are built from the caller's value; a package-level node stands in only for the one bool, integer or string it was built from", shared == "", dedupLines(shared))
 	}
 }
